@@ -61,6 +61,19 @@ def run_case(case):
                                 await curio.sleep(1)
                         except curio.TaskTimeout:
                             pass
+                    elif inner == 3:
+                        # a block of the handler's own whose deadline is LATER than the processing deadline, with a quick inner block
+                        # entered and left inside it (a poll; a notification sent to the peer): the processing deadline still applies
+                        async with curio.timeout_after(40):
+                            async with curio.ignore_after(5):
+                                await curio.sleep(0.001)
+                            await curio.sleep(50)
+                        return 'late'
+                    elif inner == 4:
+                        async with curio.ignore_after(45):
+                            await self.send_notification('progress', [1])
+                            await curio.sleep(50)
+                        return 'late'
                     await curio.sleep(50)
                     return 'late'
                 if k == 'discval':
@@ -175,6 +188,10 @@ class C03(Prop):
                 {'reqs': [{'kind': 'ret', 'value': 1, 'delay': 0.1, 'notification': False},
                           {'kind': 'discval', 'value': 'x' * 200000, 'delay': 0.5, 'notification': False, 'in_batch': False}],
                  'sockbuf': 65536},
+                {'reqs': [{'kind': 'overrun', 'inner': 3, 'delay': 0.1, 'notification': False},
+                          {'kind': 'ret', 'value': jv.to_plain(1), 'delay': 0.3, 'notification': False}]},
+                {'reqs': [{'kind': 'overrun', 'inner': 4, 'delay': 0.1, 'notification': False},
+                          {'kind': 'overrun', 'inner': 3, 'delay': 0.2, 'notification': False, 'in_batch': True}]},
                 {'reqs': [{'kind': 'overrun', 'inner': 1, 'delay': 0.1, 'notification': False},
                           {'kind': 'overrun', 'inner': 2, 'delay': 0.2, 'notification': False, 'in_batch': True},
                           {'kind': 'ret', 'value': 5, 'delay': 0.3, 'notification': False, 'in_batch': True}]}]
@@ -194,7 +211,7 @@ class C03(Prop):
                 elif kind == 'other':
                     b['which'] = rng.randrange(7)
                 elif kind == 'overrun':
-                    b['inner'] = rng.choice([0, 1, 2])
+                    b['inner'] = rng.choice([0, 1, 2, 3, 4])
                 elif kind in ('rpc', 'proto'):
                     b.update({'code': rng.choice([1, -5, -32000, 7777]), 'msg': rng.choice(['bad', '', 'é\n']),
                               'cost': rng.choice([0.0, 0.0, 25.0, 50.0])})
@@ -295,6 +312,72 @@ class C03(Prop):
             if not obs['probe']:
                 return 'after the failures a later request was not answered'
         return None
+
+    def extra_checks(self, ctx):
+        """failures on a long-lived connection: the cost decays with (wall-clock) time, is fully refunded after a quiet hour,
+        and every failure after that is charged again (with the session's default decay; the wall clock is a fake)"""
+        from harness.core import Failure
+        from aiorpcx import session, jsonrpc
+        out = []
+        for transport in ('rs', 'us'):
+            loop = sessions.new_loop()
+
+            class Clock:
+                t = 1.7e9
+
+                @staticmethod
+                def time():
+                    return Clock.t
+            real = session.time
+            session.time = Clock
+            try:
+                class S(session.RPCSession):
+                    async def handle_request(self, request):
+                        if request.method == 'rpc':
+                            raise jsonrpc.RPCError(7, 'no', cost=25.0)
+                        raise KeyError('boom')
+                proto, ft, s = sessions.attach(S, 'server', transport)
+
+                async def main():
+                    await sessions.settle(3)
+                    steps = []
+                    rid = [0]
+                    last = [Clock.t]
+
+                    async def fail(method):
+                        rid[0] += 1
+                        c0, e0 = s.cost, s.errors
+                        proto.data_received(json.dumps({'jsonrpc': '2.0', 'method': method, 'id': rid[0]}).encode() + b'\n')
+                        await asyncio.sleep(0.05)
+                        steps.append({'at': Clock.t - 1.7e9, 'method': method, 'd_cost': s.cost - c0, 'd_errors': s.errors - e0,
+                                      'decayed_at_most': (Clock.t - last[0]) * s.cost_decay_per_sec})
+                        last[0] = Clock.t
+                    await fail('rpc')
+                    await fail('other')
+                    Clock.t += 3600.0               # a quiet hour
+                    s.recalc_concurrency()          # housekeeping
+                    last[0] = Clock.t
+                    steps.append({'at': Clock.t - 1.7e9, 'cost_after_quiet_hour': s.cost})
+                    for m in ('rpc', 'other', 'other'):
+                        Clock.t += 2.0
+                        await fail(m)
+                    Clock.t += 400.0
+                    await fail('rpc')
+                    return steps
+                steps = loop.run_until_complete(main())
+            finally:
+                session.time = real
+                sessions.close_loop(loop)
+            ctx['extra_evals'] += 1
+            for st in steps:
+                if 'method' in st and (st['d_errors'] != 1 or st['d_cost'] < 100.0 - st['decayed_at_most'] - 1e-6):
+                    out.append(Failure({'kind': 'long_lived', 'transport': transport}, {'steps': steps},
+                                       f"a failed request at t={st['at']:.0f} s raised the error count by {st['d_errors']} and the cost by "
+                                       f"{st['d_cost']:.3f} (each failed request raises the error count by one and the cost by at least the base error cost; "
+                                       f"at most {st['decayed_at_most']:.2f} can have decayed meanwhile)"))
+                    break
+        ctx['notes'].append('failures on a long-lived connection (decay on, fake wall clock: a quiet hour, then failures again)')
+        return out
 
     def nontrivial(self, case, obs):
         kinds = {b['kind'] for b in case['reqs'] if b['kind'] != 'ret'}
